@@ -122,7 +122,7 @@ func TestC07(t *testing.T) {
 	m := mon.New(t, "C07")
 	defer m.Done()
 	defer debug.SetGCPercent(debug.SetGCPercent(800)) // millions of tiny short-lived hashes; live heap stays small
-	m.Rule("(a) transparency: kind in {blake2b (every digest size 1..64), blake2s-256, legacy Keccak-256/512}; write history 0..600 bytes (strata: exact multiples of the block size/rate so that a FULL buffered block is marshaled, ±1, short, uniform) in random chunks; at 1..3 points (incl. before any write, at the end and at a full block) a random member of {original, earlier copies} is marshaled and unmarshaled into a fresh hash; all members and a never-marshaled control receive the same later writes; every Sum compared across members, with the control and with the reference digest (h/ref/blake2, h/ref/keccakleg); Keccak also in squeezing direction (Read continuation). Caller memory: every Write and every UnmarshalBinary input goes through a buffer scribbled (0xA5) right after the call, one MarshalBinary output per round trip is scribbled (digest must not change) and one is retained with the recent Sum outputs and re-verified after later calls (output must not alias digest state). (b) corrupt states: for each genuine base state, EVERY structural byte position (magic, counters, size, offset / rate, n, direction) set to EVERY value 0..255, every data byte position (h, block / sponge) set to every value in the thorough tier and to 8 boundary/random values in the quick tier, the full size×offset (blake) and n×direction, rate×n (Keccak) cross products, every truncation/extension length, random strings; after a nil-error UnmarshalBinary six probe sequences run on fresh copies: Size/BlockSize/Sum; Write(0|1); Write(blocksize); Write(200) Sum Write(200) Sum; Reset Sum Write(200) Sum; Write(bs-1) Write(2) Sum. Any panic is a violation, except the documented 'Write/Sum after Read' panic of a Keccak state whose direction byte says squeezing. One evaluation = one history (a) or one byte string handed to UnmarshalBinary (b).")
+	m.Rule("(a) transparency: kind in {blake2b (every digest size 1..64), blake2s-256, legacy Keccak-256/512}; write history 0..600 bytes (strata: exact multiples of the block size/rate so that a FULL buffered block is marshaled, ±1, short, uniform) in random chunks; at 1..3 points (incl. before any write, at the end and at a full block) a random member of {original, earlier copies} is marshaled and unmarshaled into a fresh hash; all members and a never-marshaled control receive the same later writes; every Sum compared across members, with the control and with the reference digest (h/ref/blake2, h/ref/keccakleg); Keccak also in squeezing direction (Read continuation). Caller memory: every Write and every UnmarshalBinary input goes through a buffer scribbled (0xA5) right after the call, one MarshalBinary output per round trip is scribbled (digest must not change) and one is retained with the recent Sum outputs and re-verified after later calls (output must not alias digest state). (b) corrupt states: for each genuine base state, EVERY structural byte position (magic, counters, size, offset / rate, n, direction) set to EVERY value 0..255, every data byte position (h, block / sponge) set to every value in the thorough tier and to 8 boundary/random values in the quick tier, the full size×offset (blake) and n×direction, rate×n (Keccak) cross products, every truncation/extension length, random strings; after a nil-error UnmarshalBinary six probe sequences run on fresh copies: Size/BlockSize/Sum; Write(0|1); Write(blocksize); Write(200) Sum Write(200) Sum; Reset Sum Write(200) Sum; Write(bs-1) Write(2) Sum. Any panic is a violation, except the documented 'Write/Sum after Read' panic of a Keccak state whose direction byte says squeezing. (c) high-counter states: a genuine blake2b/blake2s state whose counter field is rewritten to the value reached after T bytes, T near 2^32, 2^33, 2^40, 2^63, 2^64 (blake2b also 2^65, 2^100, 2^127, 2^128) ± {0,1,block,…} or an arbitrary block multiple, buffer offset consistent; restored on every dispatch variant: MarshalBinary must give back the same bytes and every Sum during a chunked continuation (incl. low-word carries) must equal the RFC 7693 loop resumed from (h, t, buffer) by the reference; thorough tier adds one genuine > 4 GiB blake2s history. One evaluation = one history (a), one byte string handed to UnmarshalBinary (b) or one (state, variant) resume (c).")
 	m.Assume("Go runtime panics (index/slice out of range) are the observable for memory-safety of a restored state; h/ref/blake2 and h/ref/keccakleg are validated by their unit tests (RFC/KAT vectors, hashlib cross-checks); field names used in counters/keys are derived from the documented layout magic||h||c||size||block||offset resp. magic||rate||a||n||direction")
 	if err := refb2.SelfTest(); err != nil {
 		m.Inconclusive("reference self-test failed: " + err.Error())
@@ -144,6 +144,9 @@ func TestC07(t *testing.T) {
 	}
 	c07transparency(m, kinds)
 	c07corrupt(m, kinds)
+	if kinds[0].name == "blake2b" && len(kinds) > 1 && kinds[1].name == "blake2s" {
+		c07highCounter(m)
+	}
 }
 
 // ---------------------------------------------------------------- part (a)
